@@ -31,6 +31,9 @@ inductive Un | abs | sqrt | exp | ln | negate | not
 
 /-- Point-wise binary operators. -/
 inductive Bin | add | sub | mul | div | pow | log | pred (c : Cmp) | and | or | implies | iff | xor
+  -- the predicate node as evaluated by the interface-aware (IA) semantics when it is insensitive:
+  -- `predSat c`: +inf where the comparison holds, -inf where it does not; `predZero`: 0
+  | predSat (c : Cmp) | predZero
   deriving DecidableEq, Repr, Inhabited
 
 /-- Unary temporal / event operators without bounds. -/
@@ -84,7 +87,7 @@ def Un.kind : Un → Kind
 def Bin.kind : Bin → Kind
   | .add => .Addition | .sub => .Subtraction | .mul => .Multiplication | .div => .Division
   | .pow => .Pow | .log => .Log | .pred _ => .Predicate | .and => .Conjunction | .or => .Disjunction
-  | .implies => .Implies | .iff => .Iff | .xor => .Xor
+  | .implies => .Implies | .iff => .Iff | .xor => .Xor | .predSat _ => .Predicate | .predZero => .Predicate
 
 def T1.kind : T1 → Kind
   | .rise => .Rise | .fall => .Fall | .prev => .Previous | .sprev => .StrongPrevious
@@ -165,6 +168,15 @@ def Cmp.app {α} [Val α] : Cmp → α → α → α
   | .ge, l, r => Val.sub l r
   | .gt, l, r => Val.sub l r
 
+/-- Truth of a comparison between two values (`PredicateOperation.sat`). -/
+def Cmp.holds {α} [Val α] : Cmp → α → α → Bool
+  | .lt, l, r => Val.lt l r
+  | .le, l, r => !Val.lt r l
+  | .gt, l, r => Val.lt r l
+  | .ge, l, r => !Val.lt l r
+  | .eq, l, r => !Val.lt l r && !Val.lt r l
+  | .ne, l, r => Val.lt l r || Val.lt r l
+
 def Bin.app {α} [Val α] : Bin → α → α → α
   | .add, l, r => Val.add l r
   | .sub, l, r => Val.sub l r
@@ -178,5 +190,7 @@ def Bin.app {α} [Val α] : Bin → α → α → α
   | .implies, l, r => Val.pmax (Val.neg l) r
   | .iff, l, r => Val.neg (Val.abs (Val.sub l r))
   | .xor, l, r => Val.abs (Val.sub l r)
+  | .predSat c, l, r => if c.holds l r then Val.pinf else Val.ninf
+  | .predZero, _, _ => Val.zero
 
 end Rtamt
